@@ -620,7 +620,7 @@ pub fn run_c15(ctx: &Ctx) {
         };
         for c in 0..ctx.tier.pick(2usize, 12) {
             let m = 2 + (c + wi) % 3;
-            let k = 1 + rng.usize(m - 1);
+            let k = 1 + rng.usize(m); // 1..=M (full public batches too)
             t.eval();
             let pools = pubbatch::make_pools(&mut rng);
             let inners: Vec<Inner> = (0..k)
